@@ -705,6 +705,81 @@ def rule_m11(F):
     return r
 
 
+def rule_m12(F):
+    """Conversion to a Vec gives the elements the shared vector held at ONE moment: `List::to_vec` takes the list's lock once and
+    copies every element while holding it.  It neither goes through the per-element API (`get`, the by-index iterator: one lock per
+    element, so a `swap` through an alias between two elements yields a vector the list never was) nor locks twice."""
+    from .. import locks
+    r = RuleResult("C15.M12", "List::to_vec copies all elements under a single acquisition of the list's lock (a snapshot, not a walk through the per-element API)", floor=1)
+    ps = [p for p in F.paths() if p.startswith("value::list::boundary::List::<") and hir.last(p) == "to_vec"]
+    if not ps:
+        r.missing("value::list::boundary::List::<T>::to_vec")
+        return r
+    memo = {}
+
+    def acquisitions(path, depth=0):
+        """(lock acquisitions on one run of the function, per-element uses) - helpers of the list module are followed: a helper that
+        locks once and runs a closure under the lock counts once; a locking call inside a loop, or inside a closure handed to an
+        iterator adaptor, is a per-element use"""
+        if path in memo:
+            return memo[path]
+        memo[path] = (0, [])
+        x = F.body(path) if path and F.has(path) else None
+        if x is None or not x.mir or depth > 3:
+            return memo[path]
+        loops = mir.natural_loops(x)
+        in_loop = set().union(*[nodes for _, nodes in loops]) if loops else set()
+        xdefs = mir.Defs(x)
+        n, per = 0, []
+        for bi, t in mir.calls(x):
+            c = mir.callee(t) or ""
+            g = " ".join(t["f"].get("gargs") or [])
+            if locks.is_lock_call(t):
+                if bi in in_loop:
+                    per.append("lock inside a loop of %s" % hir.last(path))
+                else:
+                    n += 1
+                continue
+            if "value::list::boundary::IntoIter" in g or ("value::list::boundary::List<" in g and hir.last(mir.callee_def(t) or "") in ("extend", "from_iter", "collect", "into_iter", "for_each", "fold", "map")):
+                per.append("%s over the list's by-index iterator" % hir.last(mir.callee_def(t) or ""))
+                continue
+            is_crate = c.startswith("value::list::") and c != path and "{closure" not in c
+            if is_crate:
+                cn, cper = acquisitions(c, depth + 1)
+                per += cper
+                if cn:
+                    if bi in in_loop:
+                        per.append("%s (takes the lock itself) inside a loop" % hir.last(c))
+                    else:
+                        n += cn
+            # closures handed over: run once by a helper of the module, once per element by an iterator adaptor
+            for a in t["args"]:
+                if not mir.is_place_op(a):
+                    continue
+                for d in xdefs.whole_defs(a[1][0]):
+                    if d[2] == "assign" and d[3]["rv"]["k"] == "agg" and d[3]["rv"].get("ak") == "closure":
+                        cn, cper = acquisitions(d[3]["rv"].get("def"), depth + 1)
+                        per += cper
+                        if cn:
+                            if is_crate and bi not in in_loop:
+                                n += cn
+                            else:
+                                per.append("a closure that takes the lock, run per element by %s" % hir.last(mir.callee_def(t) or c))
+        memo[path] = (n, per)
+        return memo[path]
+    for p in ps:
+        b = F.body(p)
+        if b is None or not b.mir:
+            continue
+        direct, per_elem = acquisitions(p)
+        r.inst(p, {"fn": p, "lock_acquisitions_per_call": direct, "per_element_uses": per_elem})
+        if direct != 1 or per_elem:
+            r.bad(p, "to_vec is not a single-lock snapshot", relfile(b.file), b.line,
+                  "to_vec acquires the list's lock %d time(s) per call and uses %s: the elements are copied under separate acquisitions, so an operation through an alias in between "
+                  "(swap) gives a vector that was never the contents of the list" % (direct, per_elem or "no per-element API"))
+    return r
+
+
 def rules(ctx):
     F = ctx["F"]
     bodies = _scope(F)
@@ -719,7 +794,7 @@ def rules(ctx):
                    "value::list::ErasedList::concat"):
         if not F.has(anchor):
             m1.missing(anchor)
-    return [m1, m2, rule_m4(F), rule_m5(F), rule_m6(F), m7, rule_m8(F), rule_m9(F), rule_m10(F), rule_m11(F)]
+    return [m1, m2, rule_m4(F), rule_m5(F), rule_m6(F), m7, rule_m8(F), rule_m9(F), rule_m10(F), rule_m11(F), rule_m12(F)]
 
 
 def canary(C):
